@@ -37,7 +37,9 @@ impl Sig {
 }
 
 pub trait RefI {
-	fn next(&mut self, c: &Candle) -> (Vec<Ap>, Vec<Sig>);
+	/// `got`: the implementation's values of this step, used only to re-synchronise recursive references
+	/// after a step that was undefined within the allowance
+	fn next(&mut self, c: &Candle, got: &[f64]) -> (Vec<Ap>, Vec<Sig>);
 }
 
 // ---------------------------------------------------------------------------------------------
@@ -454,7 +456,7 @@ struct Aroon {
 	d: i64,
 }
 impl RefI for Aroon {
-	fn next(&mut self, c: &Candle) -> (Vec<Ap>, Vec<Sig>) {
+	fn next(&mut self, c: &Candle, _got: &[f64]) -> (Vec<Ap>, Vec<Sig>) {
 		let hi = self.hi.next(c.high as f64).0;
 		let lo = self.lo.next(c.low as f64).1;
 		let p = self.period as f64;
@@ -491,7 +493,7 @@ struct Adx {
 	adx: MaRef,
 }
 impl RefI for Adx {
-	fn next(&mut self, c: &Candle) -> (Vec<Ap>, Vec<Sig>) {
+	fn next(&mut self, c: &Candle, _got: &[f64]) -> (Vec<Ap>, Vec<Sig>) {
 		let ph = self.hl.next(ex(c.high));
 		let pl = self.ll.next(ex(c.low));
 		let atr = self.atr.next(tr(c, self.prev_close));
@@ -552,7 +554,7 @@ struct Awesome {
 	low: Option<i64>,
 }
 impl RefI for Awesome {
-	fn next(&mut self, c: &Candle) -> (Vec<Ap>, Vec<Sig>) {
+	fn next(&mut self, c: &Candle, _got: &[f64]) -> (Vec<Ap>, Vec<Sig>) {
 		let s = src(c, self.source);
 		let value = self.ma2.next(s) - self.ma1.next(s);
 		let (up, lo) = self.rev.next(value);
@@ -608,7 +610,7 @@ struct Bollinger {
 	sd: Box<dyn RefM>,
 }
 impl RefI for Bollinger {
-	fn next(&mut self, c: &Candle) -> (Vec<Ap>, Vec<Sig>) {
+	fn next(&mut self, c: &Candle, _got: &[f64]) -> (Vec<Ap>, Vec<Sig>) {
 		let s = src(c, self.source);
 		let mid = self.ma.next(s);
 		let sd = self.sd.next_f(s.v, f64::NAN);
@@ -628,7 +630,7 @@ struct Cmf {
 	cross: CrossRef,
 }
 impl RefI for Cmf {
-	fn next(&mut self, c: &Candle) -> (Vec<Ap>, Vec<Sig>) {
+	fn next(&mut self, c: &Candle, _got: &[f64]) -> (Vec<Ap>, Vec<Sig>) {
 		let adi = self.adi.next(&In::C(*c), f64::NAN);
 		let vs = self.vol.next(ex(c.volume));
 		let value = adi / vs;
@@ -644,7 +646,7 @@ struct ChaikinOsc {
 	cross: CrossRef,
 }
 impl RefI for ChaikinOsc {
-	fn next(&mut self, c: &Candle) -> (Vec<Ap>, Vec<Sig>) {
+	fn next(&mut self, c: &Candle, _got: &[f64]) -> (Vec<Ap>, Vec<Sig>) {
 		let a = self.adi.next(&In::C(*c), f64::NAN);
 		let v = self.ma1.next(a) - self.ma2.next(a);
 		let s0 = self.cross.cross(v, Ap::exact(0.0));
@@ -666,7 +668,7 @@ struct ChandeKroll {
 	ca: CrossRef,
 }
 impl RefI for ChandeKroll {
-	fn next(&mut self, c: &Candle) -> (Vec<Ap>, Vec<Sig>) {
+	fn next(&mut self, c: &Candle, _got: &[f64]) -> (Vec<Ap>, Vec<Sig>) {
 		let t = tr(c, self.prev_close);
 		self.prev_close = c.close as f64;
 		let atr = self.atr.next(t);
@@ -711,7 +713,7 @@ struct Cmo {
 	ca: CrossRef,
 }
 impl RefI for Cmo {
-	fn next(&mut self, c: &Candle) -> (Vec<Ap>, Vec<Sig>) {
+	fn next(&mut self, c: &Candle, _got: &[f64]) -> (Vec<Ap>, Vec<Sig>) {
 		let s = c.source(self.source);
 		let ch = (s - self.prev as V) as f64;
 		self.prev = s as f64;
@@ -741,7 +743,7 @@ struct Cci {
 	last_signal: Option<i8>,
 }
 impl RefI for Cci {
-	fn next(&mut self, c: &Candle) -> (Vec<Ap>, Vec<Sig>) {
+	fn next(&mut self, c: &Candle, _got: &[f64]) -> (Vec<Ap>, Vec<Sig>) {
 		let s = src(c, self.source);
 		let v = self.cci.next_f(s.v, f64::NAN) * (1.0 / 1.5);
 		let z = self.zone;
@@ -787,7 +789,7 @@ struct Coppock {
 	c2: CrossRef,
 }
 impl RefI for Coppock {
-	fn next(&mut self, c: &Candle) -> (Vec<Ap>, Vec<Sig>) {
+	fn next(&mut self, c: &Candle, _got: &[f64]) -> (Vec<Ap>, Vec<Sig>) {
 		let s = src(c, self.source);
 		let v1 = self.ma1.next(self.r1.next(s) + self.r2.next(s));
 		let v2 = self.ma2.next(v1);
@@ -804,7 +806,7 @@ struct Dpo {
 	past: Delay,
 }
 impl RefI for Dpo {
-	fn next(&mut self, c: &Candle) -> (Vec<Ap>, Vec<Sig>) {
+	fn next(&mut self, c: &Candle, _got: &[f64]) -> (Vec<Ap>, Vec<Sig>) {
 		let s = src(c, self.source);
 		let m = self.ma.next(s);
 		let p = self.past.next(s);
@@ -817,7 +819,7 @@ struct Donchian {
 	l: Extremum,
 }
 impl RefI for Donchian {
-	fn next(&mut self, c: &Candle) -> (Vec<Ap>, Vec<Sig>) {
+	fn next(&mut self, c: &Candle, _got: &[f64]) -> (Vec<Ap>, Vec<Sig>) {
 		let h = self.h.next(ex(c.high));
 		let l = self.l.next(ex(c.low));
 		let mid = Ap::rounded((h.v + l.v) * 0.5, 1.0);
@@ -826,7 +828,467 @@ impl RefI for Donchian {
 	}
 }
 
+
+// ---------------------------------------------------------------------------------------------
+// batch 2
+
+struct Eom {
+	ph: Delay,
+	pl: Delay,
+	ma: MaRef,
+	cross: CrossRef,
+}
+impl RefI for Eom {
+	fn next(&mut self, c: &Candle, _got: &[f64]) -> (Vec<Ap>, Vec<Sig>) {
+		let ph = self.ph.next(ex(c.high));
+		let pl = self.pl.next(ex(c.low));
+		let d = ((ex(c.high) - ph) + (ex(c.low) - pl)) * 0.5;
+		let v = if c.volume == 0.0 { Ap::exact(0.0) } else { d * (ex(c.high) - ex(c.low)) / ex(c.volume) };
+		let value = self.ma.next(v);
+		let s0 = self.cross.cross(value, Ap::exact(0.0));
+		(vec![value], vec![s0])
+	}
+}
+
+struct Efi {
+	source: Source,
+	past: Delay,
+	vol: WinSum,
+	ma: MaRef,
+	cross: CrossRef,
+}
+impl RefI for Efi {
+	fn next(&mut self, c: &Candle, _got: &[f64]) -> (Vec<Ap>, Vec<Sig>) {
+		let s = src(c, self.source);
+		let p = self.past.next(s);
+		let vs = self.vol.next(ex(c.volume));
+		let r = (s - p) * vs;
+		let value = self.ma.next(r);
+		let s0 = self.cross.cross(value, Ap::exact(0.0));
+		(vec![value], vec![s0])
+	}
+}
+
+struct Envelopes {
+	source: Source,
+	source2: Source,
+	k: f64,
+	ma: MaRef,
+}
+impl RefI for Envelopes {
+	fn next(&mut self, c: &Candle, _got: &[f64]) -> (Vec<Ap>, Vec<Sig>) {
+		let v = self.ma.next(src(c, self.source));
+		let kh = Ap::rounded(1.0 + self.k, 1.0);
+		let kl = Ap::rounded(1.0 - self.k, 1.0);
+		let (up, lo) = (v * kh, v * kl);
+		let s2 = src(c, self.source2);
+		(vec![up, lo, s2], vec![Sig::from_tri(s2.lt(lo), s2.gt(up))])
+	}
+}
+
+struct Fisher {
+	source: Source,
+	zone: f64,
+	h: Extremum,
+	l: Extremum,
+	prev: Ap,
+	cross: CrossRef,
+	ma: MaRef,
+	cross_ma: CrossRef,
+	last_rev: Option<i8>,
+}
+impl RefI for Fisher {
+	fn next(&mut self, c: &Candle, got: &[f64]) -> (Vec<Ap>, Vec<Sig>) {
+		let s = src(c, self.source);
+		let h = self.h.next(s);
+		let l = self.l.next(s);
+		let ft = if h.v == l.v {
+			Ap::exact(0.0)
+		} else {
+			let x = ((s - l) / (h - l) * 2.0 - 1.0).clamp(-0.999, 0.999);
+			x.map_mono(f64::atanh, 8.0)
+		};
+		if self.prev.is_undefined() {
+			self.prev = Ap::rounded(f64::NAN, 1.0);
+		}
+		let cum = self.prev * 0.5 + ft;
+		let rev = self.cross.cross(cum, self.prev);
+		let active = |x: Ap, r: Tri| -> Tri { x.ltf(0.0).and(r).or(Tri::No) };
+		let _ = active;
+		let (rev_up, rev_dn) = match rev {
+			Sig::Full(1) => (Tri::Yes, Tri::No),
+			Sig::Full(-1) => (Tri::No, Tri::Yes),
+			Sig::Full(_) => (Tri::No, Tri::No),
+			_ => (Tri::Maybe, Tri::Maybe),
+		};
+		let flag1 = cum.ltf(0.0).and(rev_up).or(cum.gtf(0.0).and(rev_dn));
+		let s0 = match flag1 {
+			Tri::Yes => Sig::Ratio(cum / self.zone),
+			Tri::No => Sig::Ratio(Ap::exact(0.0)),
+			Tri::Maybe => Sig::Exempt,
+		};
+		let line = self.ma.next(cum);
+		let crossed = self.cross_ma.cross(cum, line);
+		// last_reverse latch
+		match rev {
+			Sig::Full(0) => {}
+			Sig::Full(x) => self.last_rev = Some(x),
+			_ => self.last_rev = None,
+		}
+		let (c_up, c_dn) = match crossed {
+			Sig::Full(1) => (Tri::Yes, Tri::No),
+			Sig::Full(-1) => (Tri::No, Tri::Yes),
+			Sig::Full(_) => (Tri::No, Tri::No),
+			_ => (Tri::Maybe, Tri::Maybe),
+		};
+		let (lr_pos, lr_neg) = match self.last_rev {
+			Some(x) => (Tri::from(x > 0), Tri::from(x < 0)),
+			None => (Tri::Maybe, Tri::Maybe),
+		};
+		let flag2 = line.ltf(0.0).and(lr_pos).and(c_up).or(line.gtf(0.0).and(lr_neg).and(c_dn));
+		let s1 = match flag2 {
+			Tri::Yes => Sig::Ratio(line / self.zone),
+			Tri::No => Sig::Ratio(Ap::exact(0.0)),
+			Tri::Maybe => Sig::Exempt,
+		};
+		self.prev = cum;
+		let _ = got;
+		(vec![cum, line], vec![s0, s1])
+	}
+}
+
+struct HullMa {
+	source: Source,
+	hma: MaRef,
+	rev: RevRef,
+}
+impl RefI for HullMa {
+	fn next(&mut self, c: &Candle, _got: &[f64]) -> (Vec<Ap>, Vec<Sig>) {
+		let v = self.hma.next(src(c, self.source));
+		let s0 = self.rev.signal(v);
+		(vec![v], vec![s0])
+	}
+}
+
+struct Ichimoku {
+	source: Source,
+	h: [Extremum; 3],
+	l: [Extremum; 3],
+	w1: Delay,
+	w2: Delay,
+	c1: CrossRef,
+	c2: CrossRef,
+}
+impl RefI for Ichimoku {
+	fn next(&mut self, c: &Candle, _got: &[f64]) -> (Vec<Ap>, Vec<Sig>) {
+		let s = src(c, self.source);
+		let hi: Vec<Ap> = self.h.iter_mut().map(|e| e.next(ex(c.high))).collect();
+		let lo: Vec<Ap> = self.l.iter_mut().map(|e| e.next(ex(c.low))).collect();
+		let half = |a: Ap, b: Ap| Ap::rounded((a.v + b.v) * 0.5, 1.0);
+		let tenkan = half(hi[0], lo[0]);
+		let kijun = half(hi[1], lo[1]);
+		let a = self.w1.next(Ap::rounded((tenkan.v + kijun.v) * 0.5, 2.0));
+		let b = self.w2.next(half(hi[2], lo[2]));
+		let x1 = self.c1.cross(tenkan, kijun);
+		let x2 = self.c2.cross(s, kijun);
+		let green = a.gt(b);
+		let red = a.lt(b);
+		let up_cond = s.gt(a).and(s.gt(b)).and(green);
+		let dn_cond = s.lt(a).and(s.lt(b)).and(red);
+		let mk = |x: &Sig| -> Sig {
+			let (xu, xd) = match x {
+				Sig::Full(1) => (Tri::Yes, Tri::No),
+				Sig::Full(-1) => (Tri::No, Tri::Yes),
+				Sig::Full(_) => (Tri::No, Tri::No),
+				_ => (Tri::Maybe, Tri::Maybe),
+			};
+			Sig::from_tri(up_cond.and(xu), dn_cond.and(xd))
+		};
+		(vec![tenkan, kijun, a, b], vec![mk(&x1), mk(&x2)])
+	}
+}
+
+struct Kaufman {
+	source: Source,
+	fast: f64,
+	slow: f64,
+	square: bool,
+	filter_period: usize,
+	k: f64,
+	past: Delay,
+	vol: Box<dyn RefM>,
+	y: Ap,
+	cross: CrossRef,
+	sd: Option<Box<dyn RefM>>,
+	/// latched crossing: None = unknown, Some(None) = nothing latched, Some(Some((sign, value)))
+	latch: Option<Option<(i8, Ap)>>,
+}
+impl RefI for Kaufman {
+	fn next(&mut self, c: &Candle, got: &[f64]) -> (Vec<Ap>, Vec<Sig>) {
+		let s = src(c, self.source);
+		let dir = (s - self.past.next(s)).abs();
+		let vol = self.vol.next_f(s.v, f64::NAN);
+		let er = match vol.is_zero() {
+			Tri::Yes => Ap::exact(0.0),
+			Tri::No => dir / vol,
+			Tri::Maybe => Ap::undefined(),
+		};
+		let value = if er.is_undefined() || self.y.is_undefined() {
+			Ap::undefined()
+		} else {
+			let sm = er * (self.fast - self.slow) + self.slow;
+			let sm = if self.square { sm * sm } else { sm };
+			// contraction y + s (x - y): evaluate at the corners of (s, y)
+			let (slo, shi) = (sm.lo(), sm.hi());
+			let (ylo, yhi) = (self.y.lo(), self.y.hi());
+			let mut lo = f64::INFINITY;
+			let mut hi = f64::NEG_INFINITY;
+			for sv in [slo, shi] {
+				for yv in [ylo, yhi] {
+					let v = yv + sv * (s.v - yv);
+					lo = lo.min(v);
+					hi = hi.max(v);
+				}
+			}
+			Ap::from_interval(lo, hi).widen(C * EPS * 4.0 * (s.v.abs() + ylo.abs().max(yhi.abs())))
+		};
+		// the value is the recursion's own state: re-synchronise on the implementation's output after an undefined step
+		self.y = if value.is_undefined() { got.first().map_or(Ap::undefined(), |g| Ap::rounded(*g, 2.0)) } else { value };
+		let x = self.cross.cross(s, if value.is_undefined() { self.y } else { value });
+		let s0 = if self.filter_period <= 1 {
+			if value.is_undefined() {
+				Sig::Exempt
+			} else {
+				x
+			}
+		} else {
+			let sd = self.sd.as_mut().unwrap().next_f(if value.is_undefined() { self.y.v } else { value.v }, f64::NAN);
+			let filter = if value.is_undefined() { Ap::undefined() } else { sd.widen(value.e * 2.0) * self.k };
+			match x {
+				Sig::Full(0) => match self.latch.clone() {
+					Some(None) => Sig::Full(0),
+					Some(Some((sg, lv))) => {
+						let fire = if filter.is_undefined() { Tri::Maybe } else { (value - lv).abs().gt(filter) };
+						match fire {
+							Tri::Yes => {
+								self.latch = Some(None);
+								Sig::Full(sg)
+							}
+							Tri::No => Sig::Full(0),
+							Tri::Maybe => {
+								self.latch = None;
+								Sig::Exempt
+							}
+						}
+					}
+					None => Sig::Exempt,
+				},
+				Sig::Full(sg) => {
+					self.latch = if value.is_undefined() { None } else { Some(Some((sg, value))) };
+					Sig::Full(0)
+				}
+				_ => {
+					self.latch = None;
+					Sig::Exempt
+				}
+			}
+		};
+		(vec![value], vec![s0])
+	}
+}
+
+struct Keltner {
+	source: Source,
+	sigma: f64,
+	prev_close: f64,
+	ma: MaRef,
+	atr: MaRef,
+	ca: CrossRef,
+	cu: CrossRef,
+}
+impl RefI for Keltner {
+	fn next(&mut self, c: &Candle, _got: &[f64]) -> (Vec<Ap>, Vec<Sig>) {
+		let s = src(c, self.source);
+		let t = tr(c, self.prev_close);
+		self.prev_close = c.close as f64;
+		let mid = self.ma.next(s);
+		let atr = self.atr.next(t);
+		let upper = mid + atr * self.sigma;
+		let lower = mid - atr * self.sigma;
+		// the implementation's actual order and polarity (doc: upper, source, lower; buy above the upper bound)
+		let under = self.cu.under(s, lower);
+		let above = self.ca.above(s, upper);
+		(vec![s, upper, lower], vec![Sig::from_tri(under, above)])
+	}
+}
+
+struct Klinger {
+	last_tp: f64,
+	ma1: MaRef,
+	ma2: MaRef,
+	ma3: MaRef,
+	c1: CrossRef,
+	c2: CrossRef,
+}
+impl RefI for Klinger {
+	fn next(&mut self, c: &Candle, _got: &[f64]) -> (Vec<Ap>, Vec<Sig>) {
+		let tp = c.tp();
+		let d = tp - self.last_tp as V;
+		self.last_tp = tp as f64;
+		let sg = (d > 0.0) as i8 - (d < 0.0) as i8;
+		let vol = Ap::exact((sg as V * c.volume) as f64);
+		let ko = self.ma1.next(vol) - self.ma2.next(vol);
+		let line = self.ma3.next(ko);
+		let s0 = self.c1.cross(ko, Ap::exact(0.0));
+		let s1 = self.c2.cross(ko, line);
+		(vec![ko, line], vec![s0, s1])
+	}
+}
+
+struct Kst {
+	r: [Roc; 4],
+	m: [MaRef; 4],
+	sig: MaRef,
+	cross: CrossRef,
+}
+impl RefI for Kst {
+	fn next(&mut self, c: &Candle, _got: &[f64]) -> (Vec<Ap>, Vec<Sig>) {
+		let cl = ex(c.close);
+		let mut v = Vec::new();
+		for i in 0..4 {
+			let roc = self.r[i].next(cl);
+			v.push(self.m[i].next(roc));
+		}
+		let kst = (v[1] * 2.0 + v[0]) + (v[2] * 3.0 + v[3] * 4.0);
+		let line = self.sig.next(kst);
+		let s0 = self.cross.cross(kst, line);
+		(vec![kst, line], vec![s0])
+	}
+}
+
+struct Macd {
+	source: Source,
+	ma1: MaRef,
+	ma2: MaRef,
+	ma3: MaRef,
+	c1: CrossRef,
+	c2: CrossRef,
+}
+impl RefI for Macd {
+	fn next(&mut self, c: &Candle, _got: &[f64]) -> (Vec<Ap>, Vec<Sig>) {
+		let s = src(c, self.source);
+		let macd = self.ma1.next(s) - self.ma2.next(s);
+		let line = self.ma3.next(macd);
+		let s0 = self.c1.cross(macd, line);
+		let s1 = self.c2.cross(macd, Ap::exact(0.0));
+		(vec![macd, line], vec![s0, s1])
+	}
+}
+
+struct MomentumIndex {
+	source: Source,
+	p1: Delay,
+	p2: Delay,
+}
+impl RefI for MomentumIndex {
+	fn next(&mut self, c: &Candle, _got: &[f64]) -> (Vec<Ap>, Vec<Sig>) {
+		let s = src(c, self.source);
+		let v = Ap::exact((s.v as V - self.p1.next(s).v as V) as f64);
+		let w = Ap::exact((s.v as V - self.p2.next(s).v as V) as f64);
+		let s0 = Sig::from_tri(v.gtf(0.0).and(w.gtf(0.0)), v.ltf(0.0).and(w.ltf(0.0)));
+		(vec![v, w], vec![s0])
+	}
+}
+
+pub fn make_refi2(name: &str, cfg: &Value, first: &Candle) -> Option<Box<dyn RefI>> {
+	let z = Ap::exact(0.0);
+	Some(match name {
+		"EaseOfMovement" => {
+			let p2 = cfg_p(cfg, "period2");
+			Box::new(Eom { ph: Delay::new(p2, ex(first.high)), pl: Delay::new(p2, ex(first.low)), ma: MaRef::from_cfg(cfg, "ma", z), cross: CrossRef::new(z) })
+		}
+		"EldersForceIndex" => {
+			let p2 = cfg_p(cfg, "period2");
+			let s = src(first, cfg_src(cfg, "source"));
+			Box::new(Efi { source: cfg_src(cfg, "source"), past: Delay::new(p2, s), vol: WinSum::new(p2, ex(first.volume)), ma: MaRef::from_cfg(cfg, "ma", z), cross: CrossRef::default() })
+		}
+		"Envelopes" => {
+			let s = src(first, cfg_src(cfg, "source"));
+			Box::new(Envelopes { source: cfg_src(cfg, "source"), source2: cfg_src(cfg, "source2"), k: cfg_f(cfg, "k"), ma: MaRef::from_cfg(cfg, "ma", s) })
+		}
+		"FisherTransform" => {
+			let s = src(first, cfg_src(cfg, "source"));
+			let p = cfg_p(cfg, "period1");
+			Box::new(Fisher { source: cfg_src(cfg, "source"), zone: cfg_f(cfg, "zone"), h: Extremum::new(p, s, true), l: Extremum::new(p, s, false), prev: z, cross: CrossRef::default(), ma: MaRef::from_cfg(cfg, "signal", z), cross_ma: CrossRef::default(), last_rev: Some(0) })
+		}
+		"HullMovingAverage" => {
+			let s = src(first, cfg_src(cfg, "source"));
+			// the detector is seeded with the average's own initial value (= the source up to an ulp)
+			Box::new(HullMa { source: cfg_src(cfg, "source"), hma: MaRef::new("hma", cfg_p(cfg, "period"), s), rev: RevRef::new(cfg_p(cfg, "left"), cfg_p(cfg, "right"), Ap::rounded(s.v, 4.0)) })
+		}
+		"IchimokuCloud" => {
+			let (l1, l2, l3, m) = (cfg_p(cfg, "l1"), cfg_p(cfg, "l2"), cfg_p(cfg, "l3"), cfg_p(cfg, "m"));
+			let hl2 = ex(first.hl2());
+			Box::new(Ichimoku {
+				source: cfg_src(cfg, "source"),
+				h: [Extremum::new(l1, ex(first.high), true), Extremum::new(l2, ex(first.high), true), Extremum::new(l3, ex(first.high), true)],
+				l: [Extremum::new(l1, ex(first.low), false), Extremum::new(l2, ex(first.low), false), Extremum::new(l3, ex(first.low), false)],
+				w1: Delay::new(m, hl2),
+				w2: Delay::new(m, hl2),
+				c1: CrossRef::default(),
+				c2: CrossRef::default(),
+			})
+		}
+		"Kaufman" => {
+			let s = src(first, cfg_src(cfg, "source"));
+			let p1 = cfg_p(cfg, "period1");
+			let fp = cfg_p(cfg, "filter_period");
+			Box::new(Kaufman {
+				source: cfg_src(cfg, "source"),
+				fast: 2.0 / (cfg_p(cfg, "period2") as f64 + 1.0),
+				slow: 2.0 / (cfg_p(cfg, "period3") as f64 + 1.0),
+				square: cfg_b(cfg, "square_smooth"),
+				filter_period: fp,
+				k: cfg_f(cfg, "k"),
+				past: Delay::new(p1, s),
+				vol: make_ref("LinearVolatility", &Par::L(p1 as P), &In::V(s.v as V))?,
+				y: s,
+				cross: CrossRef::default(),
+				sd: if fp > 1 { make_ref("StDev", &Par::L(fp as P), &In::V(s.v as V)) } else { None },
+				latch: Some(None),
+			})
+		}
+		"KeltnerChannel" => {
+			let s = src(first, cfg_src(cfg, "source"));
+			let (_, p) = cfg_ma(cfg, "ma");
+			Box::new(Keltner { source: cfg_src(cfg, "source"), sigma: cfg_f(cfg, "sigma"), prev_close: first.close as f64, ma: MaRef::from_cfg(cfg, "ma", s), atr: MaRef::new("sma", p, Ap::rounded(first.high as f64 - first.low as f64, 1.0)), ca: CrossRef::default(), cu: CrossRef::default() })
+		}
+		"KlingerVolumeOscillator" => Box::new(Klinger { last_tp: first.tp() as f64, ma1: MaRef::from_cfg(cfg, "ma1", z), ma2: MaRef::from_cfg(cfg, "ma2", z), ma3: MaRef::from_cfg(cfg, "signal", z), c1: CrossRef::default(), c2: CrossRef::default() }),
+		"KnowSureThing" => {
+			let cl = ex(first.close);
+			Box::new(Kst {
+				r: [Roc::new(cfg_p(cfg, "period1"), cl), Roc::new(cfg_p(cfg, "period2"), cl), Roc::new(cfg_p(cfg, "period3"), cl), Roc::new(cfg_p(cfg, "period4"), cl)],
+				m: [MaRef::from_cfg(cfg, "ma1", z), MaRef::from_cfg(cfg, "ma2", z), MaRef::from_cfg(cfg, "ma3", z), MaRef::from_cfg(cfg, "ma4", z)],
+				sig: MaRef::from_cfg(cfg, "signal", z),
+				cross: CrossRef::default(),
+			})
+		}
+		"MACD" => {
+			let s = src(first, cfg_src(cfg, "source"));
+			Box::new(Macd { source: cfg_src(cfg, "source"), ma1: MaRef::from_cfg(cfg, "ma1", s), ma2: MaRef::from_cfg(cfg, "ma2", s), ma3: MaRef::from_cfg(cfg, "signal", z), c1: CrossRef::default(), c2: CrossRef::default() })
+		}
+		"MomentumIndex" => {
+			let s = src(first, cfg_src(cfg, "source"));
+			Box::new(MomentumIndex { source: cfg_src(cfg, "source"), p1: Delay::new(cfg_p(cfg, "period1"), s), p2: Delay::new(cfg_p(cfg, "period2"), s) })
+		}
+		_ => return None,
+	})
+}
+
 pub fn make_refi(name: &str, cfg: &Value, first: &Candle) -> Option<Box<dyn RefI>> {
+	if let Some(r) = make_refi2(name, cfg, first) {
+		return Some(r);
+	}
 	let z = Ap::exact(0.0);
 	Some(match name {
 		"Aroon" => {
